@@ -1,7 +1,8 @@
 (* Props/C16.v — IR JSON serialisation round-trips (ppci/irutils/io.py), statements only.
    Model.IrJson.roundtrip cfg m = from_dict cfg (to_dict cfg m): DictReader.construct applied to
    the JSON value produced by DictWriter.write_module (json.dumps/json.loads not modelled).
-   cfg_orig = /repo as it is; cfg_fixed = with fixes/C16-1..5 applied; cfg_no_X = all fixes but X. *)
+   cfg_orig = the code as found; cfg_fixed = all 8 defects repaired (io.py fixes C16-1..5 and the ir.py
+   replace_use fixes 2d6a9c1, e4350a7, 283ca09 = /repo now); cfg_no_X = everything repaired but X. *)
 From PV Require Import Lib.Py Lib.Json Spec.IRSyntax Model.IrJson Proofs.C16_irjson Gen.c16_corpus.
 
 (* ---- the code as it is violates the property: one well-formed witness per defect *)
@@ -20,17 +21,20 @@ Print Assumptions c16_undefined_refuted.
 Theorem c16_forward_operand_refuted : exists m, wf_modul m = true /\ roundtrip cfg_no_fwdtype m <> Ok m.
 Proof. exact fwdtype_refuted. Qed.
 Print Assumptions c16_forward_operand_refuted.
-Theorem c16_orig_refuted : forall w, In w [w_value; w_volatile; w_copyblob; w_undefined; w_fwdtype] ->
-  wf_modul w = true /\ roundtrip cfg_orig w <> Ok w.
+Theorem c16_orig_refuted : forall w, In w all_witnesses -> wf_modul w = true /\ roundtrip cfg_orig w <> Ok w.
 Proof. exact orig_refuted. Qed.
 Print Assumptions c16_orig_refuted.
-(* ---- known findings that remain after the C16 fixes (ppci/ir.py replace_use) *)
+(* ---- as-found ppci/ir.py replace_use reached through the reader (fixed in /repo by 2d6a9c1, e4350a7, 283ca09) *)
 Theorem c16_forward_double_use_refuted :
-  wf_modul w_fwd_double = true /\ roundtrip cfg_fixed w_fwd_double = Internal KeyError.
+  wf_modul w_fwd_double = true /\ roundtrip cfg_no_ru_generic w_fwd_double = Internal KeyError.
 Proof. exact fwd_double_use_refuted. Qed.
 Print Assumptions c16_forward_double_use_refuted.
+Theorem c16_forward_phi_refuted :
+  wf_modul w_fwd_phi = true /\ roundtrip cfg_no_ru_phi w_fwd_phi = Internal KeyError.
+Proof. exact fwd_phi_refuted. Qed.
+Print Assumptions c16_forward_phi_refuted.
 Theorem c16_forward_call_args_refuted :
-  exists m', wf_modul w_fwd_call = true /\ roundtrip cfg_fixed w_fwd_call = Ok m' /\ m' <> w_fwd_call.
+  exists m', wf_modul w_fwd_call = true /\ roundtrip cfg_no_ru_call w_fwd_call = Ok m' /\ m' <> w_fwd_call.
 Proof. exact fwd_call_args_refuted. Qed.
 Print Assumptions c16_forward_call_args_refuted.
 
@@ -59,7 +63,7 @@ Print Assumptions c16_variable_roundtrip.
 Theorem c16_external_roundtrip : forall e st,
   rs_infun st = false ->
   plookup (ext_name e) (rs_pend st) = None -> vlookup (ext_name e) (rs_glob st) = None ->
-  construct_external (write_external e) st = Ok (e, reg_glob (ext_name e) st).
+  construct_external cfg_fixed (write_external e) st = Ok (e, reg_glob (ext_name e) st).
 Proof. exact external_roundtrip. Qed.
 Print Assumptions c16_external_roundtrip.
 
@@ -79,5 +83,5 @@ Proof. exact leaf_instr_roundtrip. Qed.
 Print Assumptions c16_leaf_instr_roundtrip_partial.
 
 Example c16_nonvacuous :
-  (10 <= List.length corpus)%nat /\ forallb (rt_ok cfg_fixed) [w_value; w_volatile; w_copyblob; w_undefined; w_fwdtype] = true.
+  (10 <= List.length corpus)%nat /\ forallb (rt_ok cfg_fixed) all_witnesses = true.
 Proof. split; [exact corpus_nonempty | exact fixed_witnesses]. Qed.
